@@ -1,5 +1,7 @@
 """C07 — bucket resampling conserves counts and sums and reports true per-cell statistics."""
 import math
+import sys
+import time
 import struct
 from concurrent.futures import ThreadPoolExecutor
 from fractions import Fraction
@@ -39,22 +41,22 @@ def rand_chunks(r, n):
     if n == 0:
         return [0]
     mode = r.random()
-    if mode < 0.2:
+    if mode < 0.2 and n <= 10:
         return [1] * n
     if mode < 0.35:
         return [n]
     if mode < 0.5:
-        k = r.randint(1, max(1, n))
+        k = r.randint(max(1, n // 8), max(1, n))
         return [k] * (n // k) + ([n % k] if n % k else [])
     out, left = [], n
     while left:
-        k = r.randint(1, max(1, min(left, 1 + n // 2)))
+        k = r.randint(1, max(1, min(left, 1 + n // 2))) if len(out) < 7 else left
         out.append(k)
         left -= k
     return out
 
 
-def gen_case(r, big=False):
+def gen_case(r, big=False, nchunkings=3):
     """One case: area, coordinates, two data arrays, configuration, several chunk layouts."""
     mode = "stub" if r.random() < 0.8 else "proj"
     case = {"mode": mode}
@@ -139,18 +141,22 @@ def gen_case(r, big=False):
             data[i] = fill
         elif (fill != fill or nan_out_of_scope) and r.random() < pm / 2:
             data[i] = NAN
-    case["data"], case["fdata"] = [hexf(v) for v in data], [hexf(v) for v in fdata]
     u = r.random()
+    if u < 0.6:                      # categorical data: few distinct values, so that all of them can be categories
+        kk = r.randint(1, 4)
+        pool = r.sample(range(-span, span + 1), min(kk, 2 * span + 1))
+        fdata = [float(r.choice(pool)) for _ in range(n)]
     vals = sorted(set(int(v) for v in fdata))
-    if u < 0.3 or not vals:
+    if u < 0.2 or not vals:
         cats = None
-    elif u < 0.7:
+    elif u < 0.6:
         cats = vals
     else:
-        cats = sorted(set(r.sample(vals, r.randint(1, len(vals))) + [r.randint(-span, span) for _ in range(r.randint(0, 2))]))
+        cats = sorted(set(r.sample(vals, r.randint(1, min(4, len(vals)))) + [r.randint(-span, span) for _ in range(r.randint(0, 2))]))
     case["cats"] = cats
+    case["data"], case["fdata"] = [hexf(v) for v in data], [hexf(v) for v in fdata]
     chunkings = []
-    for _ in range(3):
+    for _ in range(nchunkings):
         chunkings.append({k: [rand_chunks(r, s) for s in shape] for k in ("coord", "data", "fdata")})
     case["chunkings"] = chunkings
     return case
@@ -233,6 +239,8 @@ def judge(case, outs):
         if len(ok_cells) == 1:
             got = next(iter(ok_cells))
         cell.append(got)
+    if fails:
+        return fails[:1]        # a wrong cell assignment explains every statistic that differs: attribute it to the index
     members = {}
     for i, cl in enumerate(cell):
         if cl is not None:
@@ -331,8 +339,9 @@ def judge(case, outs):
 
 
 # ---------------------------------------------------------------------------- Coq case text
-HDR = ("From Coq Require Import ZArith List Bool PrimFloat.\n"
-       "From PR Require Import Base.Num Base.F64 Base.ListX Model.Grid Model.Bucket Model.C07_run.\n"
+HDR = ("From Coq Require Import ZArith List Bool.\n"
+       "From PR Require Import Base.Num Base.F64 Base.ListX Model.Grid Model.Bucket Model.C07_run Gen.GenC07.\n"
+       "From Coq Require Import PrimFloat.\n"          # last: bare nan / infinity literals are PrimFloat's
        "Import ListNotations.\nOpen Scope Z_scope.\n")
 
 
@@ -424,14 +433,16 @@ def run(ctx):
                 "(exact in binary64) or general grids incl. flipped extents, 20% through real PROJ (laea, merc, stere, longlat, eqc); "
                 "points inside / exactly on cell borders and outer edges / one ulp beside them / outside / NaN, inf, 1e30, 2^63, -0.0; "
                 "integer-valued data with fill markers and NaN (sum/average only), fill_value, skipna, empty_bucket_value, category "
-                "sets; three random dask chunk layouts (1-D and 2-D, chunk size 1, ragged) of coordinates and data per case. "
+                "sets; two (quick) or three (thorough) random dask chunk layouts (1-D and 2-D, chunk size 1, ragged) of coordinates and data per case. "
                 "Non-trivial = at least one cell with two or more points and at least one point outside the area; "
                 "distinct = distinct (area, coordinates, data, configuration)")
     r = ctx.rng
-    ncases = ctx.n(150, 2500)
-    cases = [gen_case(r, big=ctx.thorough) for _ in range(ncases)]
+    ncases = ctx.n(300, 4000)
+    cases = [gen_case(r, big=ctx.thorough, nchunkings=ctx.n(2, 3)) for _ in range(ncases)]
     kernels = gen_kernels(r, ctx.n(200, 3000))
+    t0 = time.time()
     outs, kobs = run_impl(ctx, cases, kernels, shards=ctx.n(8, 12))
+    t_impl = time.time() - t0
 
     idx_lines, stat_lines, stat_ids = [], [], []
     for ci, (case, oo) in enumerate(zip(cases, outs)):
@@ -487,9 +498,12 @@ def run(ctx):
         if not ((am != am and want != want) or hexf(unhex(am)) == hexf(want)):
             ctx.add_failure("C07.absmax.kernel", "_get_abs_max_from_min_max(%r, %r) = %r" % (a, b, unhex(am)), {"oracle": "kernel", "args": [hexf(a), hexf(b)]})
     for s in range(0, len(klines), 500):
-        texts.append(("c07_kernel_%03d" % (s // 500), HDR.replace("Model.C07_run.", "Model.C07_run Gen.GenC07.") +
+        texts.append(("c07_kernel_%03d" % (s // 500), HDR +
                       "Definition cases : list kcase := [%s].\nEval vm_compute in (bad chk_kernel cases).\n" % ";\n".join(klines[s:s + 500]), "kernel", s))
+    t0 = time.time()
     res = ctx.coq_eval_many([(n, t) for n, t, _, _ in texts])
+    sys.stderr.write("  timing: implementation %.1fs (%d cases, each under 2-3 chunk layouts), model evaluation %.1fs (%d files), total so far %.1fs\n"
+                     % (t_impl, len(cases), time.time() - t0, len(texts), time.time() - ctx.t0))
     for name, _, kind, off in texts:
         out, ok = res[name]
         if not ok:
